@@ -306,6 +306,9 @@ func parent(a []string) int {
 	if x, ok := res.Counters["exhaustive_core_complete"]; ok && x > 0 {
 		cov["exhaustive_core"] = true
 	}
+	if x, ok := res.Counters["exhaustive_product_complete"]; ok && x > 0 && res.Completed && !died {
+		cov["exhaustive"] = true
+	}
 	ev := map[string]interface{}{
 		"property_id": id, "tier": tier, "seed": seed, "level": e.Level, "coverage": cov,
 		"assumptions": e.Assumptions, "wall_s": wall, "violations": len(fresh),
